@@ -29,7 +29,7 @@ from pymbolic.mapper import IdentityMapper
 from pytools import UniqueNameGenerator
 
 from dagrt.codegen.dag_ast import (
-    ASTIdentityMapper, Block, StatementWrapper, get_statements_in_ast)
+    ASTIdentityMapper, Block, IfThen, StatementWrapper, get_statements_in_ast)
 
 
 __doc__ = """
@@ -59,9 +59,20 @@ class ASTStatementRewriter(ASTIdentityMapper):
         self.stmt_id_gen = stmt_id_gen
         self.var_name_gen = var_name_gen
 
+    @staticmethod
+    def wrap_statement(stmt):
+        # Structured code generators do not look at the condition of a
+        # statement, it has to be expressed in the AST.
+        if stmt.condition is not True:
+            return IfThen(
+                    stmt.condition,
+                    StatementWrapper(stmt.copy(condition=True)))
+        else:
+            return StatementWrapper(stmt)
+
     def map_StatementWrapper(self, expr):
         new_statements = [
-                StatementWrapper(stmt)
+                self.wrap_statement(stmt)
                 for stmt in self.map_statement(expr.statement)]
 
         if len(new_statements) > 1:
